@@ -2,7 +2,7 @@
    the implementation's own dumped cover trees, compared with what the implementation returned.
    Used by harness/src/bin/c04.rs through `Eval vm_compute`. *)
 From Coq Require Import List ZArith Bool Floats.
-From SC Require Import Base.FloatUtil Base.Num C04.Model.
+From SC Require Import Base.FloatUtil Base.Num C04.Model C04.ModelBuild.
 Import ListNotations.
 
 Definition f64_max : float := 0x1.fffffffffffffp+1023%float.
@@ -144,3 +144,42 @@ Definition corr_cover_radius_many (ms : list metric) data t (qs : list fr) : boo
 Definition corr_linear_radius_many (ms : list metric) data (qs : list fr) : bool :=
   forallb (fun mq : metric * fr =>
              let '(m, (q, r, e)) := mq in corr_linear_radius m data q r e) (combine ms qs).
+
+(* ---------- CoverTree::new: the construction model against the implementation's dumped tree ---------- *)
+(* get_cover_radius(s) = 1.3f64.powf(s) and the rounded logarithm ceil(ln d / ln 1.3) inside get_scale are
+   passed as finite tables (powf / ln are not reproduced in Coq): `rtab` lists radius(lo), radius(lo+1), ...
+   as the implementation's get_cover_radius returns them (cfg hook); `stab` maps every positive pairwise
+   distance of the data set to its rounded logarithm.  A lookup outside a table yields nan / 0, which
+   makes the comparison fail rather than pass. *)
+Definition i64_min : Z := (-9223372036854775808)%Z.
+Definition tab_radius (lo : Z) (rtab : list float) (s : Z) : float :=
+  if (s <? lo)%Z then nan else nth (Z.to_nat (s - lo)) rtab nan.
+Definition tab_scale (stab : list (float * Z)) (d : float) : Z :=
+  match find (fun e : float * Z => PrimFloat.eqb (fst e) d) stab with Some e => snd e | None => 0%Z end.
+Fixpoint tree_eqb (a b : ctree float) : bool :=
+  match a, b with
+  | Node i m cs, Node j m' cs' =>
+    Nat.eqb i j && feq m m' &&
+    (fix go (l l' : list (ctree float)) : bool :=
+       match l, l' with
+       | [], [] => true
+       | x :: t, y :: t' => tree_eqb x y && go t t'
+       | _, _ => false
+       end) cs cs'
+  end.
+Definition build_fuel : nat := N.to_nat 7000.
+Definition run_build m data (lo : Z) (rtab : list float) (stab : list (float * Z)) : option (ctree float) :=
+  cover_build fltb fleb 0%float (-1)%float i64_min (tab_scale stab) (tab_radius lo rtab) (dpp_of m data)
+              build_fuel (length data).
+Definition corr_build m data lo rtab stab (t : jtree) : bool :=
+  match run_build m data lo rtab stab with
+  | Some t' => tree_eqb t' (of_j t)
+  | None => false
+  end.
+(* get_scale: for every positive pairwise distance d of the data set, the model's get_scale (rounded
+   logarithm from `stab`, bumped by one when the cover radius falls short) is the implementation's
+   (`exp`, cfg hook), and the hypothesis of build_wf holds for it: d <= radius (get_scale d) *)
+Definition corr_scale (lo : Z) (rtab : list float) (stab exp : list (float * Z)) : bool :=
+  forallb (fun e : float * Z =>
+             let s := get_scale fltb fleb 0%float i64_min (tab_scale stab) (tab_radius lo rtab) (fst e) in
+             Z.eqb s (snd e) && fleb (fst e) (tab_radius lo rtab s)) exp.
